@@ -61,8 +61,6 @@ def expiry(e: int, has_e: bool, dt: int, srvclose: bool, dt2: int) -> None:
         # keep-alive deadline) and the pool does its housekeeping for somebody else: a connection in use is
         # neither expired nor closed
         vrt.RT.clock = vrt.RT.clock + dt2
-        P.check(not conn.has_expired() and not conn.is_idle(), "connection-in-use-is-not-expired",
-                f"expiry:{ct}:in-use-reported-expired")
         o3 = su.api.request(su.pool, "GET", su.url("c", host="elsewhere.test"), extensions={"timeout": {"pool": 0, "read": 5}})
         P.check(o3.ok, "housekeeping-request-ok", lambda: f"expiry:{ct}:third:{o3.kind()}")
         P.check(sock.open, "connection-in-use-is-not-closed-by-the-pool", f"expiry:{ct}:in-use-closed")
